@@ -24,7 +24,7 @@ package netflow9
 //	announced  seq <= the last seq that writer has started
 //
 // Every dump file is read back (encoding/json and the real GetCache): it must hold shardNo shards
-// of complete templates, each stored under its own hash in its own shard, none staler than what was
+// of complete templates, each stored under its own key text in its own shard, none staler than what was
 // completed before the Dump call started. A data race reported by the race detector fails the case
 // (the subtest is marked failed by the testing package); a runtime fatal error ("concurrent map
 // iteration and map write") kills the process, which the check engine reports for the case.
@@ -163,7 +163,7 @@ func verifSnapshot(k *verifKey, into *[verifMaxG]uint32) {
 
 type verifDisk struct {
 	Cache []*struct {
-		Templates map[uint32]Data
+		Templates map[string]Data
 	}
 	ShardNo int
 }
@@ -212,7 +212,7 @@ func verifCheckDump(cache MemCache, keys []*verifKey, file string, before [][ver
 			}
 			wantShard, wantHash := cache.getShard(keys[j].id, keys[j].addr)
 			if wantHash != h || cache[si] != wantShard {
-				fail.set("dump holds the template of key %d under hash %d in shard %d, not where retrieve looks for it (hash %d)", j, h, si, wantHash)
+				fail.set("dump holds the template of key %d under %q in shard %d, not where retrieve looks for it (%q)", j, h, si, wantHash)
 				return
 			}
 			seen[j] = ver
@@ -243,6 +243,54 @@ func verifCheckDump(cache MemCache, keys []*verifKey, file string, before [][ver
 	}
 }
 
+// verifHash: the shard index and 32-bit FNV-1 of addr || id, computed here (not taken from the cache)
+func verifHash(id uint16, addr net.IP) (int, uint32) {
+	h := uint32(2166136261)
+	for _, c := range append(append([]byte{}, addr...), byte(id>>8), byte(id)) {
+		h = h*16777619 ^ uint32(c)
+	}
+	return int(h % 32), h
+}
+
+type verifPair struct {
+	a, b     net.IP
+	idA, idB uint16
+}
+
+var (
+	verifCollOnce  sync.Once
+	verifCollPairs []verifPair
+)
+
+// verifCollidingPairs: n pairs of different (address, id) keys with equal FNV-1 of addr || id, by a deterministic
+// birthday search over addresses 10.x.y.z and ids 300..65535 (about 2^18 keys; once per process)
+func verifCollidingPairs(n int) []verifPair {
+	verifCollOnce.Do(func() {
+		type ai struct {
+			a  uint32
+			id uint16
+		}
+		seen := make(map[uint32]ai, 1<<19)
+		x := uint64(88172645463325252)
+		for len(verifCollPairs) < n {
+			x ^= x << 13
+			x ^= x >> 7
+			x ^= x << 17
+			a := 10<<24 | uint32(x>>20)&0xffffff
+			id := uint16(300 + (x>>44)%65236)
+			ip := net.IP{byte(a >> 24), byte(a >> 16), byte(a >> 8), byte(a)}
+			_, h := verifHash(id, ip)
+			if p, ok := seen[h]; ok && p.a != a {
+				verifCollPairs = append(verifCollPairs, verifPair{net.IP{byte(p.a >> 24), byte(p.a >> 16), byte(p.a >> 8), byte(p.a)}, ip, p.id, id})
+				delete(seen, h)
+				continue
+			}
+			seen[h] = ai{a, id}
+		}
+	})
+	return verifCollPairs
+}
+
 func verifCacheCase(dir string, caseNo int, line string) (string, string) {
 	f := strings.Fields(line)
 	if len(f) != 6 || !strings.HasPrefix(f[0], "cachestress") {
@@ -258,18 +306,42 @@ func verifCacheCase(dir string, caseNo int, line string) (string, string) {
 	}
 	cache := GetCache(filepath.Join(dir, "no-such-file"))
 
-	// keys: a shared set and a private set per goroutine; distinct hashes (equal FNV-1 of two keys is
-	// the separate finding K1 of C04, not this property)
+	// keys: a shared set and a private set per goroutine. Since the caches key their entries by the pair itself
+	// (hex text of address and id) and no longer by its 32-bit FNV-1, pairs with equal hash are ordinary keys:
+	// shared keys 0/1, 2/3, 4/5 and the first two private keys of the first eight goroutines are pairs searched to
+	// collide under the hash (same shard, formerly the same entry: K1 of C04; the template id a key is stored under
+	// need not be the one written in the template, which carries the key index); every sixth key uses the 16-octet
+	// form of its address
 	nShared, nPriv := 24, 6
 	var keys []*verifKey
-	hashes := map[uint32]bool{}
+	texts := map[string]bool{}
+	var colliding []int
 	for j := 0; len(keys) < nShared+g*nPriv; j++ {
-		k := &verifKey{id: uint16(256 + len(keys)), addr: net.IPv4(10, byte(j>>16), byte(j>>8), byte(j)).To4()}
-		_, h := cache.getShard(k.id, k.addr)
-		if hashes[h] {
-			continue
+		n := len(keys)
+		k := &verifKey{id: uint16(256 + n), addr: net.IPv4(10, byte(j>>16), byte(j>>8), byte(j)).To4()}
+		if n%6 == 5 {
+			k.addr = net.IPv4(10, byte(j>>16), byte(j>>8), byte(j))
 		}
-		hashes[h] = true
+		if n%2 == 1 && (n < 6 || (n >= nShared && n < nShared+8*nPriv && (n-nShared)%nPriv == 1)) {
+			pairs := verifCollidingPairs(3 + 8)
+			p := pairs[len(colliding)/2]
+			_, h0 := verifHash(p.idA, p.a)
+			if _, h1 := verifHash(p.idB, p.b); h0 != h1 || (p.a.Equal(p.b) && p.idA == p.idB) {
+				return "bad", "fail:the searched pair does not collide"
+			}
+			prev := keys[n-1]
+			_, t0 := cache.getShard(prev.id, prev.addr)
+			delete(texts, t0)
+			prev.id, prev.addr, k.id, k.addr = p.idA, p.a, p.idB, p.b
+			_, t0 = cache.getShard(prev.id, prev.addr)
+			texts[t0] = true
+			colliding = append(colliding, n-1, n)
+		}
+		_, t := cache.getShard(k.id, k.addr)
+		if texts[t] {
+			return "bad", fmt.Sprintf("fail:two different (address, id) pairs have the same cache key %q", t)
+		}
+		texts[t] = true
 		keys = append(keys, k)
 	}
 	if seed%2 == 1 {
